@@ -491,6 +491,10 @@ func (R *Repository) updateEntry(entry *Entry, err error, store crlstore.CRLStor
 		entry.CRLStore.Close()
 		//mark as empty in case someone already acquired the entry and waits for a lock
 		entry.CRLStore = nil
+	} else {
+		//the entry now holds a completely read and accepted crl, whether it was loaded before or not
+		//(with fetch_background configured crls are not loaded by AddCRL)
+		entry.Loaded = true
 	}
 	return err
 }
